@@ -111,6 +111,7 @@ Holds(c, env, q, W) ==
     [] c.k = "not"   -> ~Holds(c.c, env, q, W)
     [] c.k = "pred"  -> PredHolds(c.p, [i \in 1..Len(c.args) |-> Val(c.args[i], env, q, W)])
     [] c.k = "subq"  -> Holds(c.c, env, q, W)
+    [] c.k = "hastype" -> IsInst(W, Val(c.e, env, q, W).v, c.T)
     [] c.k = "forall" ->
          LET us == {c.uv[i] : i \in 1..Len(c.uv)}
              as == Assign(q, W, us, 1, env)
